@@ -68,6 +68,7 @@ type frame struct {
 	block  *ssa.BasicBlock
 	result Value
 	caller *frame
+	loops  map[int]int
 }
 
 // GoPanic is a Go-level panic raised by interpreted code.
@@ -106,6 +107,7 @@ type ExitEvent struct {
 var curMachine *Machine
 
 type Machine struct {
+	loopBound int // 0: none
 	prog     *ssa.Program
 	pkg      *ssa.Package
 	globals  map[*ssa.Global]*Value
@@ -323,6 +325,17 @@ func (m *Machine) runBlock(fr *frame) {
 
 func (m *Machine) runBlockFrom(fr *frame, skipPhis int) {
 	b := fr.block
+	if m.loopBound > 0 && fr.prev != nil && fr.prev.Index >= b.Index && !strings.HasPrefix(m.posStr(fr.fn.Pos()), "zz_verif_") {
+		// a back edge in library code: count executions of this loop header within this call
+		if fr.loops == nil {
+			fr.loops = map[int]int{}
+		}
+		fr.loops[b.Index]++
+		if fr.loops[b.Index] > m.loopBound {
+			m.ex.report("unwind", fmt.Sprintf("a loop ran more than %d times on an input of bounded size: possible non-termination", m.loopBound), m.posStr(fr.fn.Pos()), fr.fn.String(), m.ex.knownSite("unwind", fr.fn.String()))
+			panic(&PathEnd{"unwind"})
+		}
+	}
 	// phis evaluated simultaneously
 	var phiVals []Value
 	nphi := 0
@@ -498,14 +511,26 @@ func (m *Machine) instr(fr *frame, in ssa.Instruction) {
 		if m.ex.Branch(bad, m.posStr(x.Pos())+" makeslice-range") {
 			m.goPanic(fr, x.Pos(), "makeslice: len out of range")
 		}
-		m.noteAlloc(c, x.Pos())
 		if isByte(et) {
+			m.noteAlloc(c, x.Pos())
 			m.objCount++
 			fr.env.put(x, BSlice{&ByteObj{arr: ArrConst(0), size: c, id: m.objCount}, i64_0, n, c})
 			return
 		}
-		cn := m.ex.Concretize(c, 1<<20, "makeslice cap")
-		ln := m.ex.Concretize(n, 1<<20, "makeslice len")
+		// bytes requested = capacity x element size (the ceiling is in bytes)
+		esz := stdSizes.Sizeof(et)
+		if esz < 1 {
+			esz = 1
+		}
+		if c.IsConst() {
+			m.noteAlloc(I64(int64(c.val)*esz), x.Pos())
+		} else {
+			// c*esz without overflow: c is known non-negative here; saturate when c is huge
+			huge := Cmp("bvult", I64((1<<40)/esz), c)
+			m.noteAlloc(Ite(huge, I64(1<<40), Bin("bvmul", c, I64(esz))), x.Pos())
+		}
+		cn := m.ex.Concretize(c, 4096, "makeslice cap")
+		ln := m.ex.Concretize(n, 4096, "makeslice len")
 		d := make([]Value, ln, cn)
 		for i := range d {
 			d[i] = zero(et)
@@ -786,7 +811,14 @@ func (m *Machine) convert(from, to types.Type, v Value) Value {
 				case float64:
 					return BV(tw, uint64(int64(f)))
 				case *SymFloat:
-					return UF("f2i", tw, f.from, BV(64, uint64(f.mul*1000)))
+					r := UF("f2i", tw, f.from, BV(64, uint64(f.mul*1000)))
+					// the only fact used about int(float64(n)*k) for 1 <= k <= 2: n < 2^52 => n <= r <= 2n (exact
+					// conversion below 2^53, monotone multiplication, truncation toward zero)
+					if f.mul >= 1 && f.mul <= 2 && tw == 64 && f.from.w == 64 {
+						small := Cmp("bvult", f.from, BV(64, 1<<52))
+						m.ex.Assume(Or(Not(small), And(Cmp("bvule", f.from, r), Cmp("bvule", r, Bin("bvshl", f.from, BV(64, 1))))), "float model")
+					}
+					return r
 				}
 			}
 		}
@@ -938,6 +970,14 @@ func (m *Machine) binop(op token.Token, t types.Type, a, b Value, pos token.Pos)
 			return Not(m.strEq(x, y))
 		case token.ADD:
 			return m.strConcat(x, y)
+		case token.LSS:
+			return m.strLess(x, y)
+		case token.GTR:
+			return m.strLess(y, x)
+		case token.LEQ:
+			return Not(m.strLess(y, x))
+		case token.GEQ:
+			return Not(m.strLess(x, y))
 		}
 	case float64:
 		switch y := b.(type) {
@@ -1533,6 +1573,8 @@ func (m *Machine) specRun(fr *frame, b *ssa.BasicBlock) (stores []pendingStore, 
 	}
 	return stores, true
 }
+
+var stdSizes = types.SizesFor("gc", "amd64")
 
 var noIfConv = os.Getenv("NOIFCONV") != ""
 
